@@ -309,3 +309,13 @@ def run(ck, prog):
 
 
 EXPLANATION += (' F-beta: a division by a combination of the precision and recall results sits behind a zero test (found and fixed: NaN for tp = 0).')
+
+
+# ------------------------------------------------------------------ generic: `while counter < bound` loops advance their counter
+_run_pre_progress = run
+
+
+def run(ck, prog):
+    _run_pre_progress(ck, prog)
+    from sa import progress
+    progress.run_rule(ck, prog, set(DIMENSION_FILES))
